@@ -121,6 +121,16 @@ CHECKS = {
              'random larger trees with long / non-ASCII ids and histories up to 40 are validated by TLC; codec round trips.',
         note='zlib/base64/json trusted; default tree options; ids without a double quote (they are not escaped in the anchors).',
         ref='DESIGN.md section 4 C20'),
+    'C17': dict(engine='DTLife',
+        technique='TLA+ life-cycle machine (DTLife) enumerated and simulated by TLC; every history executed in lock step on '
+                  'one real template object',
+        text='TLC checks NoStaleBlocks / FreshEqual and exports every operation history of the tier length (plus simulated '
+             'histories of length 8) with the <<source, defaults, namespace>> key each Render must produce; the harness '
+             'executes the history on a real template with persistent caller data, compares each render with a fresh '
+             'template, and snapshots caller mappings, sequences and defaults after every operation; file templates incl. '
+             'pickle contents.',
+        note='The expected text for a key is rendered by a freshly constructed template (the property defines it so).',
+        ref='DESIGN.md section 4 C17'),
 }
 
 REASON_PENDING = 'check not built yet in this round (planned, see DESIGN.md section 4)'
